@@ -82,10 +82,12 @@ type vfC06Relay struct {
 	ReadBuf   int    `json:"read_buf"`
 	LateRdMs  int    `json:"late_reader_ms"` // fast open only: the client starts reading this late
 	StartMs   int    `json:"start_ms"`
-	AddrLen   int    `json:"addr_len,omitempty"` // requested address is padded to exactly this many bytes (0 = natural)
-	MsgLen    int    `json:"msg_len,omitempty"`  // dial_fail: the outbound's error text is padded to exactly this many bytes
-	Round     int    `json:"round,omitempty"`    // churn worlds: relays of round r start when round r-1 is over
-	Role      string `json:"role,omitempty"`     // churn worlds: "A" ends one direction early, "B" starts in A's teardown window
+	GateMs    int    `json:"dial_gate_ms,omitempty"` // the fake Outbound.TCP takes this long (virtual) to answer: a slow dial
+	TimedRd   int    `json:"timed_reads,omitempty"`  // fast open: this many Reads with a deadline that expires while the server is still dialling
+	AddrLen   int    `json:"addr_len,omitempty"`     // requested address is padded to exactly this many bytes (0 = natural)
+	MsgLen    int    `json:"msg_len,omitempty"`      // dial_fail: the outbound's error text is padded to exactly this many bytes
+	Round     int    `json:"round,omitempty"`        // churn worlds: relays of round r start when round r-1 is over
+	Role      string `json:"role,omitempty"`         // churn worlds: "A" ends one direction early, "B" starts in A's teardown window
 	Seed      int64  `json:"seed"`
 }
 
@@ -235,6 +237,12 @@ func vfC06GenRelay(r *rand.Rand, idx, user, capBytes int, fastOpen bool) vfC06Re
 		rl.LateRdMs = 1 + r.Intn(200)
 	}
 	rl.StartMs = r.Intn(60)
+	if r.Intn(4) == 0 { // slow dial; with fast open the application may poll with read deadlines meanwhile
+		rl.GateMs = 50 + r.Intn(450)
+		if fastOpen {
+			rl.TimedRd = r.Intn(3)
+		}
+	}
 	return rl
 }
 
@@ -335,6 +343,16 @@ func vfC06GenBoundary(k *vfKit, caseID string, fastOpen bool) vfC06Case {
 		rl.UpChunk, rl.DownChunk, rl.ReadBuf, rl.StartMs = 1+r.Intn(2000), 1+r.Intn(2000), 1+r.Intn(8000), r.Intn(40)
 		c.Users = append(c.Users, vfC06User{Idx: rl.User, FastOpen: fastOpen, Relays: []int{rl.Idx}})
 		c.Relays = append(c.Relays, rl)
+	}
+	// slow dial (fake outbound answers late); with fast open the application polls with 1 and 2 expiring read deadlines
+	for tr := 1; tr <= 2; tr++ {
+		g := vfC06Relay{Mode: "quiesce", Up: 200 + r.Intn(3000), Down: 200 + r.Intn(3000), GateMs: 100 + r.Intn(400)}
+		f := vfC06Relay{Mode: "dial_fail", Up: r.Intn(300), GateMs: 100 + r.Intn(400)}
+		if fastOpen {
+			g.TimedRd, f.TimedRd = tr, tr
+		}
+		add(g)
+		add(f)
 	}
 	for _, l := range vfC06Boundaries {
 		add(vfC06Relay{Mode: "quiesce", Up: 200 + r.Intn(3000), Down: 200 + r.Intn(3000), AddrLen: l})
@@ -441,6 +459,7 @@ type vfC06RS struct {
 	stuckWrite bool
 	gateMissed bool
 	tcpHung    bool
+	timedOut   int
 	dials      int
 	errAfter   int64         // t_error: server-side Read fails once it took this many bytes; -1 = never
 	eofAfter   int64         // t_halfclose: server-side Read returns EOF once it took this many bytes (writes still accepted); -1 = never
@@ -818,6 +837,9 @@ func (run *vfC06Run) onTCP(addr string) (net.Conn, error) {
 	rs.dials++
 	first := rs.dials == 1
 	rs.mu.Unlock()
+	if first && rs.sp.GateMs > 0 {
+		time.Sleep(time.Duration(rs.sp.GateMs) * time.Millisecond) // the dial takes a while
+	}
 	if rs.sp.Mode == "dial_fail" {
 		return nil, errors.New(rs.dialMsg)
 	}
@@ -911,6 +933,9 @@ func (run *vfC06Run) drive(rs *vfC06RS) {
 		return
 	}
 	rs.conn = conn
+	if u.sp.FastOpen {
+		run.timedReads(rs, conn)
+	}
 	if u.sp.FastOpen && sp.LateRdMs > 0 {
 		go func() {
 			time.Sleep(time.Duration(sp.LateRdMs) * time.Millisecond)
@@ -1069,6 +1094,33 @@ func (run *vfC06Run) drive(rs *vfC06RS) {
 	}
 }
 
+// timedReads: fast open only. While the (slow) dial is still in progress the application polls the
+// connection with read deadlines that expire; nothing may be delivered by these Reads, and they must
+// not change what later Reads deliver (the response is still consumed by the client library, a refusal
+// is still a DialError). All deadlines lie well before the fake outbound answers.
+func (run *vfC06Run) timedReads(rs *vfC06RS, conn net.Conn) {
+	sp := rs.sp
+	if sp.TimedRd == 0 || sp.GateMs == 0 {
+		return
+	}
+	d := time.Duration(sp.GateMs) * time.Millisecond / time.Duration(sp.TimedRd+2)
+	buf := make([]byte, 2048)
+	for i := 0; i < sp.TimedRd; i++ {
+		_ = conn.SetReadDeadline(time.Now().Add(d))
+		n, err := conn.Read(buf)
+		if n > 0 {
+			rs.log.AddT("cli_read", rs.key, int64(n), time.Now().UnixNano(), nil)
+			rs.arrive(vfC06Down, buf[:n])
+		}
+		if err != nil {
+			rs.mu.Lock()
+			rs.timedOut++
+			rs.mu.Unlock()
+		}
+	}
+	_ = conn.SetReadDeadline(time.Time{})
+}
+
 func (run *vfC06Run) driveDialFail(rs *vfC06RS, u *vfC06UserRT, conn net.Conn, err error, r *rand.Rand) {
 	want := rs.dialMsg
 	judge := func(e error, how string) {
@@ -1101,6 +1153,7 @@ func (run *vfC06Run) driveDialFail(rs *vfC06RS, u *vfC06UserRT, conn net.Conn, e
 		return
 	}
 	rs.conn = conn
+	run.timedReads(rs, conn)
 	if rs.sp.Up > 0 { // fast open: writing before the response is legal
 		run.write(rs, vfC06Up, conn, 0, int64(rs.sp.Up), r, -1)
 	}
@@ -1416,6 +1469,10 @@ func vfC06Judge(k *vfKit, run *vfC06Run, evs []vfEvent) {
 		if sp.AddrLen > 0 || sp.MsgLen > 0 {
 			k.Count("ev_varint_boundary_relays", 1)
 		}
+		if rs.timedOut > 0 {
+			k.Count("ev_reads_timed_out_during_dial", int64(rs.timedOut))
+			k.Count("ev_relays_polled_during_slow_dial", 1)
+		}
 		if rs.tcpHung {
 			key, what := "dial:request-never-answered", "the outbound accepts the dial"
 			if sp.Mode == "dial_fail" {
@@ -1608,7 +1665,7 @@ var vfC06StuckOnce sync.Once
 
 func vfC06Sig(c *vfC06Case, rl *vfC06Relay) string {
 	u := c.Users[rl.User]
-	return fmt.Sprintf("%d|%d|%s|%d|%d|%d|%d|%d|%d|%d|%v|%v|%d|%d|%d|%d", rl.AddrLen, rl.MsgLen, rl.Mode, rl.Up, rl.Down, rl.Pre, rl.UpChunk, rl.DownChunk, rl.CutAt, rl.ReadBuf,
+	return fmt.Sprintf("%d|%d|%d|%d|%s|%d|%d|%d|%d|%d|%d|%d|%v|%v|%d|%d|%d|%d", rl.GateMs, rl.TimedRd, rl.AddrLen, rl.MsgLen, rl.Mode, rl.Up, rl.Down, rl.Pre, rl.UpChunk, rl.DownChunk, rl.CutAt, rl.ReadBuf,
 		u.FastOpen, c.Logger, u.VetoAt, len(u.Relays), c.LatencyMs, c.LossPct)
 }
 
